@@ -7,9 +7,11 @@ Local Open Scope Z_scope.
 
 Definition mid_optimal (mid : list Z -> list Z -> list Z -> mid_result) : Prop :=
   forall a b buf ai bi s buf', 2 <= zlen a -> 2 <= zlen b ->
+  2 * (zlen a + zlen b + 2) <= zlen buf ->
   mid a b buf = MidFound ai bi s buf' ->
-  0 <= ai -> 0 <= bi -> 0 <= s -> ai + s <= zlen a -> bi + s <= zlen b ->
-  L a b = L (sub a 0 ai) (sub b 0 bi) + s + L (sub a (ai + s) (zlen a)) (sub b (bi + s) (zlen b)).
+  zlen buf' = zlen buf /\
+  (0 <= ai -> 0 <= bi -> 0 <= s -> ai + s <= zlen a -> bi + s <= zlen b ->
+   L a b = L (sub a 0 ai) (sub b 0 bi) + s + L (sub a (ai + s) (zlen a)) (sub b (bi + s) (zlen b))).
 
 (* cost as a structural sum *)
 Definition cst (chunks : list chunk) : Z := fold_right (fun c s => c_del c + c_ins c + s) 0 chunks.
@@ -72,20 +74,23 @@ Variable mid : list Z -> list Z -> list Z -> mid_result.
 Hypothesis Hopt : mid_optimal mid.
 
 Theorem trace_cost : forall fuel a b buf chunks ret buf',
+  2 * (zlen a + zlen b + 2) <= zlen buf ->
   trace mid fuel a b buf chunks = TraceOk ret buf' ->
+  zlen buf' = zlen buf /\
   exists new, ret = chunks ++ new /\ cst new = zlen a + zlen b - 2 * L a b.
 Proof.
-  induction fuel as [|f IH]; intros a b buf chunks ret buf' H; [discriminate|].
+  induction fuel as [|f IH]; intros a b buf chunks ret buf' Hbuf H; [discriminate|].
   destruct a as [|x a'].
-  { cbn [trace] in H. injection H as <- <-. exists [mkChunk 0 (zlen b) 0]. split; [reflexivity|].
+  { cbn [trace] in H. injection H as <- <-. split; [reflexivity|]. exists [mkChunk 0 (zlen b) 0]. split; [reflexivity|].
     change (L [] b) with 0. cst_simp. lia. }
   destruct b as [|y b'].
-  { exists [mkChunk (zlen (x :: a')) 0 0].
-    destruct a' as [|? ?]; cbn [trace] in H; injection H as <- <-; (split; [reflexivity|]);
+  { assert (buf' = buf /\ ret = chunks ++ [mkChunk (zlen (x :: a')) 0 0]) as [-> ->].
+    { destruct a' as [|? ?]; cbn [trace] in H; injection H as <- <-; split; reflexivity. }
+    split; [reflexivity|]. exists [mkChunk (zlen (x :: a')) 0 0]. (split; [reflexivity|]);
       rewrite L_nil_r; cst_simp; lia. }
   destruct a' as [|x2 a''].
   { cbn [trace] in H.
-    destruct (find_index x (y :: b') 0) as [i|] eqn:Ef; injection H as <- <-.
+    destruct (find_index x (y :: b') 0) as [i|] eqn:Ef; injection H as <- <-; (split; [reflexivity|]).
     - exists [mkChunk 0 i 1; mkChunk 0 (zlen (y :: b') - i - 1) 0]. split; [reflexivity|].
       rewrite (L_single_in x (y :: b')) by (eapply find_index_some_in; eauto).
       cst_simp. lia.
@@ -94,7 +99,7 @@ Proof.
       cst_simp. lia. }
   destruct b' as [|y2 b''].
   { cbn [trace] in H.
-    destruct (find_index y (x :: x2 :: a'') 0) as [i|] eqn:Ef; injection H as <- <-.
+    destruct (find_index y (x :: x2 :: a'') 0) as [i|] eqn:Ef; injection H as <- <-; (split; [reflexivity|]).
     - exists [mkChunk i 0 1; mkChunk (zlen (x :: x2 :: a'') - i - 1) 0 0]. split; [reflexivity|].
       rewrite L_comm, (L_single_in y (x :: x2 :: a'')) by (eapply find_index_some_in; eauto).
       cst_simp. lia.
@@ -112,13 +117,19 @@ Proof.
   rewrite !andb_true_iff in Er. destruct Er as [[[[R1 R2] R3] R4] R5].
   apply Z.leb_le in R1, R2, R3, R4, R5.
   destruct (trace mid f (sub a 0 ai) (sub b 0 bi) buf1 chunks) as [ret1 buf2| |] eqn:E1; try discriminate.
-  destruct (IH _ _ _ _ _ _ E1) as [n1 [-> Hn1]].
-  destruct (IH _ _ _ _ _ _ H) as [n2 [-> Hn2]].
-  pose proof (Hopt a b buf ai bi s buf1 Hla Hlb Em R1 R2 R3 R4 R5) as HL.
-  rewrite !sub_length in Hn1, Hn2 by lia.
+  destruct (Hopt a b buf ai bi s buf1 Hla Hlb Hbuf Em) as [Hb1 HL].
+  specialize (HL R1 R2 R3 R4 R5).
+  assert (Hs1 : zlen (sub a 0 ai) = ai /\ zlen (sub b 0 bi) = bi) by (rewrite !sub_length by lia; lia).
+  assert (Hs2 : zlen (sub a (ai + s) (zlen a)) = zlen a - (ai + s) /\ zlen (sub b (bi + s) (zlen b)) = zlen b - (bi + s))
+    by (rewrite !sub_length by lia; lia).
+  assert (Hq1 : 2 * (zlen (sub a 0 ai) + zlen (sub b 0 bi) + 2) <= zlen buf1) by lia.
+  destruct (IH _ _ _ _ _ _ Hq1 E1) as [Hb2 [n1 [-> Hn1]]].
+  assert (Hq2 : 2 * (zlen (sub a (ai + s) (zlen a)) + zlen (sub b (bi + s) (zlen b)) + 2) <= zlen buf2) by lia.
+  destruct (IH _ _ _ _ _ _ Hq2 H) as [Hb3 [n2 [-> Hn2]]].
+  split; [lia|].
   exists (n1 ++ (if s >? 0 then [mkChunk 0 0 s] else []) ++ n2). split.
   - destruct (s >? 0); rewrite <- !app_assoc; reflexivity.
-  - rewrite !cst_app, Hn1, Hn2. destruct (s >? 0); cst_simp; lia.
+  - rewrite !cst_app, Hn1, Hn2. destruct Hs1 as [-> ->]. destruct Hs2 as [-> ->]. destruct (s >? 0); cst_simp; lia.
 Qed.
 End TraceCost.
 
@@ -136,7 +147,9 @@ Proof.
   set (b' := firstn (length b - p - s) (skipn p b)) in *.
   match type of H with match ?t with _ => _ end = _ => destruct t as [ret buf'| |] eqn:Et end; try discriminate.
   injection H as <-. rewrite merge_chunks_cost.
-  destruct (trace_cost mid Hopt _ _ _ _ _ _ _ Et) as [new [-> Hnew]].
+  assert (Hbuf : 2 * (zlen a' + zlen b' + 2) <= zlen (repeat 0 (2 * (length a' + length b' + 2)))).
+  { unfold zlen. rewrite repeat_length. lia. }
+  destruct (trace_cost mid Hopt _ _ _ _ _ _ _ Hbuf Et) as [_ [new [-> Hnew]]].
   assert (HLab : L a b = Z.of_nat p + L a' b' + Z.of_nat s).
   { rewrite (three_way a p s Hsa), (three_way b p s Hsb). fold a' b'. rewrite <- Hsuf, <- Hpre.
     rewrite L_common, L_suffix_common. unfold zlen. rewrite firstn_length, skipn_length. lia. }
